@@ -606,6 +606,17 @@ pub fn parse_output_format(
 
 		let param_id = param_split[0];
 
+		if params.contains_key(param_id)
+		{
+			report.error(
+				format!(
+					"duplicate format argument `{},{}`",
+					format_id,
+					param_id));
+
+			return Err(());
+		}
+
 		if param_split.len() == 1
 		{
 			params.insert(param_id.to_string(), "".to_string());
